@@ -203,9 +203,32 @@ theorem exitOp_FreshInv (c : Cfg) (s m : Nat) (st : FS) (h : FreshInv st) : Fres
     · exact h1.2 m' h' id hid
   · exact h1
 
+/-- a raising enter callback changes nothing but the log and the outcome -/
+theorem enterFailOp_fields (c : Cfg) (s m src : Nat) (st : FS) :
+    (enterFailOp c s m src st).1.counts = (enterOp c s m src st).1.counts ∧
+    (enterFailOp c s m src st).1.hooks = (enterOp c s m src st).1.hooks ∧
+    (enterFailOp c s m src st).1.fresh = (enterOp c s m src st).1.fresh := by
+  unfold enterFailOp
+  simp only []
+  split <;> simp [FS.push]
+
+theorem enterFailOp_log (c : Cfg) (s m src : Nat) (st : FS) :
+    plainLog (enterFailOp c s m src st).1.log =
+      plainLog (enterOp c s m src st).1.log ++
+        (if (enterOp c s m src st).2 = .entered then [ObsE.enterAbort s m] else []) := by
+  unfold enterFailOp
+  simp only []
+  split <;> simp [FS.push, plainLog, Obs.plain]
+
 theorem step_FreshInv (c : Cfg) (o : Op) (st : FS) (h : FreshInv st) : FreshInv (step c o st).1 := by
   cases o with
   | enter s m src => exact enterChain_FreshInv c s m src _ st h
+  | enterFail s m src =>
+    have h1 := enterChain_FreshInv c s m src c.feats st h
+    simp only [step, enterFailOp]
+    split
+    · exact FreshInv_push _ _ (by simp) h1
+    · exact h1
   | exit s m => exact exitOp_FreshInv c s m st h
   | exitFail s m => exact FreshInv_push _ _ (by simp) h
 
@@ -365,6 +388,19 @@ theorem step_counts_other (c : Cfg) (s m : Nat) (o : Op) (st : FS)
         · exact .inr (fun h => hm h.symm)
       · exact .inl (fun h => hs h.symm)
     exact enterChain_counts_frame c s' m' src s m hne _ st
+  | enterFail s' m' src =>
+    have hne : s ≠ s' ∨ m ≠ m' := by
+      simp only [isSelf, isForeign, decide_eq_false_iff_not] at h1 h2
+      by_cases hs : s' = s
+      · by_cases hm : m' = m
+        · by_cases hsrc : src = s
+          · exact absurd ⟨hs, hm, hsrc⟩ h1
+          · exact absurd ⟨hs, hm, hsrc⟩ h2
+        · exact .inr (fun h => hm h.symm)
+      · exact .inl (fun h => hs h.symm)
+    simp only [step]
+    rw [(enterFailOp_fields c s' m' src st).1]
+    exact enterChain_counts_frame c s' m' src s m hne _ st
 
 theorem step_counts_self (c : Cfg) (s m : Nat) (hR : .retry ∈ c.feats) (hnd : c.feats.Nodup)
     (hOk : NoRaise c s c.feats) (o : Op) (h : isSelf s m o = true) (st : FS) :
@@ -380,6 +416,17 @@ theorem step_counts_self (c : Cfg) (s m : Nat) (hR : .retry ∈ c.feats) (hnd : 
     have := enterChain_retry c s m s c.feats st hR hnd hOk
     simp only [resetIf_self] at this
     simp only [step, enterOp]
+    split
+    · next hc => exact (this.1 hc).2
+    · next hc => exact (this.2 hc).2
+  | enterFail s' m' src =>
+    simp only [isSelf, decide_eq_true_eq] at h
+    rw [h.1, h.2.1, h.2.2]
+    have := enterChain_retry c s m s c.feats st hR hnd hOk
+    simp only [resetIf_self] at this
+    simp only [step]
+    rw [(enterFailOp_fields c s m s st).1]
+    simp only [enterOp]
     split
     · next hc => exact (this.1 hc).2
     · next hc => exact (this.2 hc).2
@@ -482,6 +529,19 @@ theorem step_frame (c : Cfg) (o : Op) (m : Nat) (hne : o.model ≠ m) (st : FS) 
       (plainLog st.log).filter (fun e => e.model = m) := by
   cases o with
   | enter s' m' src => exact enterChain_frame c s' m' src m (fun h => hne (by simp [Op.model, h])) _ st
+  | enterFail s' m' src =>
+    have hne' : m' ≠ m := fun h => hne (by simp [Op.model, h])
+    have hf := enterChain_frame c s' m' src m (fun h => hne' h.symm) c.feats st
+    have hx := enterFailOp_fields c s' m' src st
+    refine ⟨?_, ?_, ?_⟩
+    · intro s; simp only [step]; rw [hx.1]; exact hf.1 s
+    · intro h; simp only [step]; rw [hx.2.1]; exact hf.2.1 h
+    · simp only [step]
+      have hf3 := hf.2.2
+      rw [enterFailOp_log, List.filter_append]
+      show List.filter _ (plainLog (enterChain c s' m' src c.feats st).1.log) ++ _ = _
+      rw [hf3]
+      split <;> simp [ObsE.model, hne']
   | exit s' m' => exact exitOp_frame c s' m' m (fun h => hne (by simp [Op.model, h])) st
   | exitFail s' m' =>
     have hne' : m' ≠ m := fun h => hne (by simp [Op.model, h])
@@ -577,6 +637,18 @@ theorem step_view (c : Cfg) (o : Op) (m : Nat) (hm : o.model = m) (a b : FS) (h 
     simp only [Op.model] at hm
     subst hm
     exact enterChain_view c s m' src _ a b h
+  | enterFail s m' src =>
+    simp only [Op.model] at hm
+    subst hm
+    have hv := enterChain_view c s m' src c.feats a b h
+    simp only [step, enterFailOp, enterOp]
+    by_cases ho : (enterChain c s m' src c.feats a).2 = .entered
+    · have ho' : (enterChain c s m' src c.feats b).2 = .entered := by rw [← hv.2]; exact ho
+      simp only [ho, ho', if_true]
+      exact ⟨ViewEq_push _ _ (by simp [Obs.plain]) hv.1, trivial⟩
+    · have ho' : ¬ (enterChain c s m' src c.feats b).2 = .entered := by rw [← hv.2]; exact ho
+      simp only [ho, ho', if_false]
+      exact hv
   | exit s m' =>
     simp only [Op.model] at hm
     subst hm
@@ -605,10 +677,11 @@ theorem runOps_view (c : Cfg) (m : Nat) :
 
 /-! ### feature-free states -/
 
-def Op.obs : Op → ObsE
-  | .enter s m _ => .enterCbs s m
-  | .exit s m => .exitCbs s m
-  | .exitFail s m => .exitAbort s m
+def Op.obs : Op → List ObsE
+  | .enter s m _ => [.enterCbs s m]
+  | .enterFail s m _ => [.enterCbs s m, .enterAbort s m]
+  | .exit s m => [.exitCbs s m]
+  | .exitFail s m => [.exitAbort s m]
 
 theorem enterChain_feature_free (c : Cfg) (s m src : Nat) (hr : (c.args s).retries = 0) :
     ∀ (l : List Mixin) (st : FS), NoRaise c s l →
@@ -652,16 +725,24 @@ theorem FeatureFree.noRaise {c : Cfg} {s : Nat} (h : FeatureFree c s) : NoRaise 
   · exact .inr (.inr he)
 
 theorem step_feature_free (c : Cfg) (o : Op) (st : FS) (h : FeatureFree c o.state) :
-    plainLog (step c o st).1.log = plainLog st.log ++ [o.obs] := by
+    plainLog (step c o st).1.log = plainLog st.log ++ o.obs := by
   cases o with
   | enter s m src => exact (enterChain_feature_free c s m src h.1 _ st h.noRaise).2
+  | enterFail s m src =>
+    have hf := enterChain_feature_free c s m src h.1 c.feats st h.noRaise
+    simp only [step]
+    rw [enterFailOp_log]
+    simp only [enterOp, hf.1, hf.2, if_true, Op.obs]
+    simp
   | exit s m => exact exitOp_plain c s m st
   | exitFail s m => simp [step, exitFailOp, FS.push, plainLog, Obs.plain, Op.obs]
 
 theorem step_plain (c : Cfg) (o : Op) (st : FS) :
-    plainLog (step c.plain o st).1.log = plainLog st.log ++ [o.obs] := by
+    plainLog (step c.plain o st).1.log = plainLog st.log ++ o.obs := by
   cases o with
   | enter s m src => simp [step, enterOp, Cfg.plain, enterChain, FS.push, plainLog, Obs.plain, Op.obs]
+  | enterFail s m src =>
+    simp [step, enterFailOp, enterOp, Cfg.plain, enterChain, FS.push, plainLog, Obs.plain, Op.obs]
   | exit s m => exact exitOp_plain _ s m st
   | exitFail s m => simp [step, exitFailOp, FS.push, plainLog, Obs.plain, Op.obs]
 
